@@ -40,7 +40,7 @@ ErrPosed(L, cm, tr, um, us) == cm = "abort" /\ tr = -2 /\ um = "wait" /\ L >= 1 
 
 Sc(k, p, cs, us, cm, tr, um, sl) ==
     [kind |-> k, proxy |-> p, cseg |-> cs, hl |-> (IF k = "sni" THEN Len(HelloBytes) ELSE 0),
-     useg |-> us, cmode |-> cm, trig |-> tr, umode |-> um, uslow |-> sl, rt |-> 0, dead |-> 0, deadpp |-> 0, dt |-> 0, refresh |-> 0]
+     useg |-> us, cmode |-> cm, trig |-> tr, umode |-> um, uslow |-> sl, rt |-> 0, wt |-> 0, dead |-> 0, deadpp |-> 0, dt |-> 0, refresh |-> 0]
 Proxies(k) == IF k = "ws" THEN {0} ELSE {0, 1}
 CSegsOf(k) == UNION { Segs(s) : s \in CStreams(k) }
 USegsAll == UNION { Segs(s) : s \in UStreams }
@@ -63,6 +63,16 @@ MCTimeout == UNION { UNION { { [Sc(k, p, cs, us, c[1], c[2], c[3], 0) EXCEPT !.r
                            : cs \in CSegsOf(k) }
                    : k \in Kinds \ {"ws"} }
 
+\* listeners with a write timeout (and no, or a much longer, read timeout): a session with a pause.  The upstream
+\* replies in mid-stream (trigger inside the client's stream, behind the hello), the client waits for the reply,
+\* is silent for longer than the write timeout and then sends the rest
+MCPause == UNION { UNION { { [Sc(k, p, cs, us, c[1], tr, c[2], 0) EXCEPT !.wt = 1] :
+                               p \in Proxies(k), us \in { u \in USegsAll : u # <<>> },
+                               tr \in ((IF k = "sni" THEN Len(HelloBytes) ELSE 1) .. (Len(Flatten(cs)) - 1)),
+                               c \in { <<"half", "half">>, <<"half", "wait">>, <<"wait", "half">> } }
+                         : cs \in CSegsOf(k) }
+                 : k \in Kinds \ {"ws"} }
+
 \* the same shapes without a read timeout: the proxies have a dial timeout (proxy.dialtimeout) and the tunnel
 \* outlives it (dt), resp. the listener is a tcp-dynamic one and the tunnel lives across several refreshes
 MCIdle == { [s EXCEPT !.rt = 0, !.dt = 1] : s \in MCTimeout }
@@ -77,10 +87,10 @@ MCDead == UNION { UNION { { [Sc(k, p, cs, us, c[1], c[2], c[3], 0) EXCEPT !.dead
 
 Valid(s) == \/ s.uslow = 0 /\ WellPosed(Len(Flatten(s.cseg)), s.cmode, s.trig, s.umode)
             \/ s.uslow = 1 /\ ErrPosed(Len(Flatten(s.cseg)) - s.hl, s.cmode, s.trig, s.umode, s.useg)
-MCValid == MCClean \cup { s \in MCErr : Valid(s) } \cup MCTimeout \cup MCDead \cup MCIdle \cup MCRefresh
+MCValid == MCClean \cup { s \in MCErr : Valid(s) } \cup MCTimeout \cup MCDead \cup MCIdle \cup MCRefresh \cup MCPause
 
 ScJson(s) == [kind |-> s.kind, proxy |-> s.proxy, cseg |-> s.cseg, hl |-> s.hl, useg |-> s.useg,
-              cmode |-> s.cmode, trig |-> s.trig, umode |-> s.umode, uslow |-> s.uslow, rt |-> s.rt, dead |-> s.dead, deadpp |-> s.deadpp, dt |-> s.dt, refresh |-> s.refresh]
+              cmode |-> s.cmode, trig |-> s.trig, umode |-> s.umode, uslow |-> s.uslow, rt |-> s.rt, wt |-> s.wt, dead |-> s.dead, deadpp |-> s.deadpp, dt |-> s.dt, refresh |-> s.refresh]
 
 \* generator: evaluated once per distinct state; prints at the terminal ones
 GenOut == Terminated => PrintT(ToJson([sc |-> ScJson(sc), usegs |-> USegs, ufree |-> UFree,
